@@ -363,8 +363,8 @@ pub fn run_plan(plan: &Plan, env: &mut Env, corpus: &Arc<Vec<String>>, forced: O
                 still = Instant::now();
                 asleep = None;
             }
-            if t0.elapsed().as_secs() > 600 {
-                println!("HARNESS-ERROR L2a: a plan ran for more than 600 s");
+            if t0.elapsed().as_secs() > 180 {
+                println!("HARNESS-ERROR L2a: a plan ran for more than 180 s");
                 std::process::exit(2);
             }
         }
@@ -946,6 +946,9 @@ pub fn cmd_l2a(args: &crate::Args) -> i32 {
     if std::fs::write(&evp, part.render()).is_err() {
         println!("HARNESS-ERROR cannot write {}", evp);
         return 2;
+    }
+    if violations > 0 {
+        exit = 1;
     }
     println!("C03/L2a {} seed={} plans={} distinct_schedules={} switches={} yields={} keys_compared={} violations={} wall={:.1}s exit={}", tier, seed, all.len(), scheds.len(), switches, yields, keys, violations, wall, exit);
     exit
